@@ -16,12 +16,24 @@ def shape(j):
     return "%s(%s)" % (j["op"], ",".join(c["op"] for c in j["a"]))
 
 
-def one_event(ck, eid, env, f, fj, asg, present, completion, want_sat):
+def one_event(ck, eid, env, f, fj, asg, present, completion, want_sat, reuse=False):
     model = EagerModel({s: v for (s, v, _), p in zip(asg, present) if p}, env)
     ev = {"id": eid, "kind": "getvalue", "f": fj,
           "asg": [{"n": s.symbol_name(), "ty": term_io.export_type(s.symbol_type()), "v": vj} for (s, v, vj) in asg],
           "present": [1 if p else 0 for p in present], "completion": completion,
           "res": "error", "out": term_io.node("bool_constant", i=[1]), "rty": term_io.ty_none(), "sat": "na", "exc": ""}
+    if not completion and reuse:
+        # the model OBJECT has been used before: the same formula and its symbols were evaluated WITH completion
+        # (which the model memoises); the call without completion must not see those defaults
+        try:
+            with warnings.catch_warnings():
+                warnings.simplefilter("ignore")
+                model.get_value(f, model_completion=True)
+                for (s, _v, _vj) in asg:
+                    model.get_value(s, model_completion=True)
+                model.satisfies(f) if f.get_type().is_bool_type() else None
+        except Exception:
+            pass
     try:
         with warnings.catch_warnings():
             warnings.simplefilter("ignore")
@@ -52,6 +64,7 @@ def run(ck):
     evs = []
     eid = 0
     n_partial = 0
+    n_nocomp = [0]
     for k, c in enumerate(cases):
         try:
             f = term_io.build_public(c["f"], env)
@@ -69,7 +82,8 @@ def run(ck):
                         continue
                     plans.append((list(pres), comp))
         for pres, comp in plans:
-            ev = one_event(ck, eid, env, f, fj, asg, pres, comp, is_bool)
+            n_nocomp[0] += 0 if comp else 1
+            ev = one_event(ck, eid, env, f, fj, asg, pres, comp, is_bool, reuse=(not comp and n_nocomp[0] % 2 == 0))
             eid += 1
             if ev is None:
                 continue
